@@ -177,6 +177,24 @@ def extreme_updates(sh: T.Shape, tier: str) -> Iterator[Case]:
     yield Case(2, bytes(4), 'valid-extreme', 'eor-v4', True, 0)
 
 
+def nexthop_matrix(sh: T.Shape) -> Iterator[Case]:
+    """MP_REACH_NLRI of every negotiated family x every next-hop length a speaker may put there (RFC 4760 4/16/32,
+    RFC 4364/4659 12/24/48 with the zero route distinguisher, RFC 5549/8950 16/32 and 24/48 for the IPv4 families,
+    and the lengths in between) x an NLRI field that is empty / one labelled VPN prefix / one plain prefix:
+    decoded or refused, whatever the validator and the lazy extraction behind it make of the length."""
+    w = 4 if sh.asn4 else 2
+    head = attr(0x40, 1, b'\x00') + attr(0x40, 2, bytes([2, 1]) + (65001).to_bytes(w, 'big'))
+    v6 = bytes([0x20, 1, 0x0D, 0xB8] + [0] * 11 + [1])
+    ll = bytes([0xFE, 0x80] + [0] * 13 + [1])
+    nhs = {0: b'', 4: bytes([10, 0, 0, 1]), 8: bytes(4) + bytes([10, 0, 0, 1]), 12: bytes(8) + bytes([10, 0, 0, 1]), 16: v6, 20: bytes(4) + v6, 24: bytes(8) + v6, 32: v6 + ll, 36: bytes(4) + v6 + ll, 48: bytes(8) + v6 + bytes(8) + ll}
+    nlris = {'empty': b'', 'vpn': bytes([112, 0, 1, 1]) + bytes([0, 0, 0xFD, 0xE8, 0, 0, 0, 1]) + bytes([10, 0, 0]), 'plain': bytes([24, 10, 0, 0]), 'labelled': bytes([48, 0, 1, 1, 10, 0, 0])}
+    for afi, safi in sorted(sh.fams):
+        for ln, nh in nhs.items():
+            for nm, nl in nlris.items():
+                mp = u16(afi) + bytes([safi, ln]) + nh + b'\x00' + nl
+                yield Case(2, update(head + attr(0x80, 14, mp)), 'mp-nexthop', f'{afi}.{safi}/nh{ln}/{nm}', None)
+
+
 # ---- stream A: valid UPDATEs, structured random (reference-ENCODED: `wire encode`) -------------------------
 
 
@@ -661,6 +679,94 @@ def corrupt_generic(rng: Any, body: bytes, per: int) -> list[tuple[bytes, str]]:
 # ---- stream C: random bytes and TLV soup -------------------------------------------------------------------
 
 
+def split_attrs(body: bytes) -> tuple[bytes, list[tuple[int, int, bytes]], bytes] | None:
+    """(withdrawn field, [(flags, code, value)], NLRI field) of a well-framed UPDATE body, else None."""
+    if len(body) < 4:
+        return None
+    wl = int.from_bytes(body[0:2], 'big')
+    if 4 + wl > len(body):
+        return None
+    al = int.from_bytes(body[2 + wl : 4 + wl], 'big')
+    i, end = 4 + wl, 4 + wl + al
+    if end > len(body):
+        return None
+    out = []
+    while i < end:
+        if i + 3 > end:
+            return None
+        fl, code = body[i], body[i + 1]
+        if fl & 0x10:
+            if i + 4 > end:
+                return None
+            ln, v = int.from_bytes(body[i + 2 : i + 4], 'big'), i + 4
+        else:
+            ln, v = body[i + 2], i + 3
+        if v + ln > end:
+            return None
+        out.append((fl, code, body[v : v + ln]))
+        i = v + ln
+    return body[2 : 2 + wl], out, body[end:]
+
+
+_QA: list[bytes] = []
+
+
+def qa_bodies() -> list[bytes]:
+    """The UPDATE bodies of /repo's own functional test material (qa/encoding *.ci, qa/decoding): real messages of
+    every family and of the attributes with nested TLVs (prefix-SID, SRv6, tunnel encapsulation, BGP-LS, PMSI, AIGP)."""
+    if not _QA:
+        from harness import roundtriprig as R
+
+        seen = set()
+        for _fn, kind, payload in R.ci_lines():
+            if kind == 'raw':
+                raw = bytes.fromhex(payload.replace(':', ''))
+                if len(raw) >= 19 and raw[18] == 2 and raw[19:] not in seen:
+                    seen.add(raw[19:])
+                    _QA.append(raw[19:])
+        for _fn, first, body in R.decoding_samples():
+            if first.split()[0] == 'update':
+                b = body[19:] if body[:16] == b'\xff' * 16 else body
+                if b not in seen:
+                    seen.add(b)
+                    _QA.append(b)
+    return _QA
+
+
+PLAIN_CODES = {1, 2, 3, 4, 5, 6, 7, 8, 9, 10, 14, 15, 16, 17, 18}
+
+
+def inner_corruptions(rng: Any, sh: T.Shape, budget: int) -> list[Case]:
+    """Single-point corruptions INSIDE the value of every attribute of the QA messages, the frame around it kept
+    consistent (attribute length, total attribute length): every byte -1 / +1 / 0 / 255 and the value cut after
+    every byte.  That is where the length octets of nested TLVs, sub-TLVs and sub-sub-TLVs live; the walk above
+    (`update_fields`) does not know them.  budget = 0: all of them; else all those of the attributes with nested
+    structure and a sample of the rest."""
+    first: list[Case] = []
+    rest: list[Case] = []
+    for body in qa_bodies():
+        parts = split_attrs(body)
+        if parts is None:
+            continue
+        wd, attrs, nlri = parts
+        for ai, (fl, code, val) in enumerate(attrs):
+            muts: list[tuple[bytes, str]] = []
+            for k in range(len(val)):
+                for d, nm in ((1, '+1'), (-1, '-1'), (None, '=0'), (255, '=255')):
+                    nb = (val[k] + d) & 255 if d in (1, -1) else (0 if d is None else 255)
+                    if nb != val[k]:
+                        muts.append((val[:k] + bytes([nb]) + val[k + 1 :], f'byte{nm}'))
+                muts.append((val[:k], 'cut'))
+            for nv, nm in muts:
+                block = b''.join(attr(f & 0xEF, c, nv if j == ai else v) for j, (f, c, v) in enumerate(attrs))
+                b = u16(len(wd)) + wd + u16(len(block)) + block + nlri
+                if len(b) + 19 <= sh.msg_size:
+                    (rest if code in PLAIN_CODES else first).append(Case(2, b, 'inner-corrupt', f'attr{code}:{nm}', None))
+    if budget and len(rest) > budget:
+        rest = rng.sample(rest, budget)
+    return first + rest
+
+
 def soup_update(rng: Any, sh: T.Shape) -> bytes:
     reg = registered_codes()
     room = sh.msg_size - 19 - 4
@@ -772,6 +878,19 @@ def slug(text: str) -> str:
 
 def mp_reserved_nonzero(body: bytes) -> bool:
     return any(k == 'mp-reserved' and body[o] != 0 for o, _, k in update_fields(body))
+
+
+def vpn_nexthop_rd_nonzero(body: bytes) -> bool:
+    """An MP_REACH_NLRI of a VPN family (SAFI 128 / 129) whose next hop is in VPN form (12 / 24 / 48 octets) with a
+    route distinguisher that is not zero: RFC 4364 4.3.2 / RFC 4659 3.2.1 define the next hop with an RD of 0 only."""
+    for o, _, k in update_fields(body):
+        if k == 'mp-nhlen' and o - 1 >= 0 and body[o - 1] in (128, 129):
+            ln, nh = body[o], body[o + 1 : o + 1 + body[o]]
+            if ln in (12, 24) and any(nh[:8]):
+                return True
+            if ln == 48 and (any(nh[:8]) or any(nh[24:32])):
+                return True
+    return False
 
 
 class Judge:
@@ -971,6 +1090,8 @@ class Judge:
                     why = 'attribute-opaque-to-reference'
                 elif mp_reserved_nonzero(case.body):
                     why = 'mp-reach-reserved-nonzero'  # RFC 4760 3: MUST be 0 when sent (receiver SHOULD ignore)
+                elif vpn_nexthop_rd_nonzero(case.body):
+                    why = 'vpn-nexthop-rd-nonzero'  # not a valid message: the reference does not look inside a next hop
                 if why:
                     ctx.count('canon:ref-ok/' + why)
                     continue
@@ -1090,9 +1211,9 @@ def run(ctx: Ctx) -> None:
     rng = ctx.rng
     quick = ctx.tier == 'quick'
     ctx.rule = (
-        'every message type (OPEN, UPDATE, NOTIFICATION, KEEPALIVE, ROUTE-REFRESH, OPERATIONAL, unknown) x 8 session shapes (asn4 x ADD-PATH x {ipv4+ipv6 unicast, all 23 families} x 4096/65535): '
+        'every message type (OPEN, UPDATE, NOTIFICATION, KEEPALIVE, ROUTE-REFRESH, OPERATIONAL, unknown) x 10 session shapes (asn4 x ADD-PATH x {ipv4+ipv6 unicast, all 23 families} x 4096/65535, two of them with the extended next hop capability of RFC 8950 in both OPENs): '
         'valid messages (reference-encoded random UPDATEs; extreme shapes: 0..max unknown attributes, 255-AS segments, maximal NLRI/withdrawn counts, AS_PATH+AS4_PATH; OPENs with every capability, unknown ones, RFC 9072 lengths), '
-        'single-point corruptions of those (every length field +1/-1/0/max, truncation before/inside/after every field class, overrun, each flag bit, type codes swapped) and random bytes / TLV soup; '
+        'MP_REACH_NLRI of every negotiated family x next-hop lengths 0..48 x NLRI shapes, single-point corruptions of those (every length field +1/-1/0/max, truncation before/inside/after every field class, overrun, each flag bit, type codes swapped) and random bytes / TLV soup; '
         'each through Message.unpack with all lazy parts forced and through Protocol.read_message + handlers. non-trivial = decoded by both entry points (body > 4 bytes) or refused with a NOTIFICATION on a corrupt/random body; distinct = distinct (type, body, shape)'
     )
     shapes = [T.build_shape(s) for s in T.SHAPE_SPECS]
@@ -1138,6 +1259,17 @@ def run(ctx: Ctx) -> None:
     for si, sh in enumerate(shapes):
         start = time.time()
         span = max(1.0, (t0 + budget_streams - start) / (len(shapes) - si))  # what is left, shared evenly
+        # the next-hop matrix of MP_REACH_NLRI: enumerated, never cut by the clock
+        for case in nexthop_matrix(sh):
+            judge.run_case(sh, case)
+            ctx.count('mp-nexthop:nh' + case.label.split('/')[1][2:])
+        judge.flush(sh)
+        if sh.name == 'a4-all-64k':
+            # corruptions inside the attribute values of /repo's own QA messages (nested TLVs): deterministic part first
+            for case in inner_corruptions(rng, sh, 1500 if quick else 0):
+                judge.run_case(sh, case)
+                ctx.count('inner-corrupt:' + case.label.split(':')[0])
+            judge.flush(sh)
         valid: list[Case] = []
         valid += list(extreme_updates(sh, ctx.tier))
         if ctx.driver_ok:
